@@ -28,10 +28,11 @@ def call_feed(l3, mem, start, end, solver, base, stats, max_steps):
     fn = f'@{l3.name}_feed'
     if l3.indirect:
         mem.new('startcell', 8, kind='cell')
-        mem.cells[('startcell', 0)] = Ptr('chunk', bv(start, 64))
-        args = [Ptr('startcell', bv(0, 64)), Ptr('chunk', bv(end, 64)), Ptr('state', bv(0, 64))]
+        # the caller hands over chunk[start:end): reading at or beyond `end` is outside the input chunk
+        mem.cells[('startcell', 0)] = Ptr('chunk', bv(start, 64), 0, end)
+        args = [Ptr('startcell', bv(0, 64)), Ptr('chunk', bv(end, 64), 0, end), Ptr('state', bv(0, 64))]
     else:
-        args = [Ptr('chunk', bv(start, 64)), Ptr('chunk', bv(end, 64)), Ptr('state', bv(0, 64))]
+        args = [Ptr('chunk', bv(start, 64), 0, end), Ptr('chunk', bv(end, 64), 0, end), Ptr('state', bv(0, 64))]
     return llsym.Exec(l3.mod, fn, args, mem, solver, base, max_steps=max_steps, stats=stats, hook_snapshot=l3.hook_snapshot)
 
 
@@ -137,7 +138,8 @@ def outcome_equal_conds(l3, w, q):
     conds = []
     if w.kind != 'RET' or q.kind != 'RET':
         # a memory fault / unwinding on both sides is not a chunking difference (it is C03's / C04's subject)
-        conds.append((f'both runs return (whole: {w.kind} {w.why}, split: {q.kind} {q.why})', z3.BoolVal(w.kind == q.kind)))
+        same = w.kind == q.kind and not ('chunk' in (w.why or '') or 'chunk' in (q.why or ''))
+        conds.append((f'both runs return (whole: {w.kind} {w.why}, split: {q.kind} {q.why})', z3.BoolVal(same)))
         return conds
     conds.append((f'final result code ({l3.codes[w.code]} vs {l3.codes[q.code]})', z3.BoolVal(w.code == q.code)))
     if l3.indirect:
@@ -350,8 +352,13 @@ def c10_state(l3, machine, sidx, alloc, L, stats, timeout_ms=30000):
     def on_pair(a, o):
         events, code, off, cur, dat, ub = a.res
         conds = []
-        if o.kind == 'ABORT':
+        if o.kind == 'ABORT' and 'chunk' not in (o.why or ''):
             d['cov']['paths_skipped_memory_fault_reported_by_C03'] = d['cov'].get('paths_skipped_memory_fault_reported_by_C03', 0) + 1
+            return
+        if o.kind == 'ABORT':
+            r = ask([(f'feed reads outside the chunk it was given ({o.why})', z3.BoolVal(False))], list(a.pc) + [pcB[id(o)]], 'reads-past-end')
+            if r:
+                findings.append({'kind': 'c10-diff', 'what': 'feed reads input outside [start, end) (e.g. on re-invocation after a yield at the chunk end)', 'detail': str(o.why)[:160], 'abs_code': a.res[1], **witness(r[1])})
             return
         if o.kind != 'RET':
             conds.append((f'C run ends in {o.kind}: {o.why}', z3.BoolVal(False)))
